@@ -168,6 +168,17 @@ func (t *Type) UnmarshalJSON(buf []byte) error {
 				if err != nil {
 					return err
 				}
+				// ObjectWithOptionalAttrs panics when asked to make an undeclared
+				// attribute optional; for serialized input that is a plain error.
+				declared := make(map[string]struct{}, len(atys))
+				for k := range atys {
+					declared[NormalizeString(k)] = struct{}{}
+				}
+				for _, name := range optionals {
+					if _, ok := declared[NormalizeString(name)]; !ok {
+						return fmt.Errorf("optional attribute %q is not declared", name)
+					}
+				}
 				*t = ObjectWithOptionalAttrs(atys, optionals)
 			} else {
 				*t = Object(atys)
